@@ -11,6 +11,9 @@ import (
 	"golang.org/x/tools/go/ssa"
 )
 
+// maxVCLines caps the size of one function's VC (cap VC size from day one).
+const maxVCLines = 150000
+
 const (
 	nkNormal = iota
 	nkUnwind
@@ -364,7 +367,10 @@ func (in *inst) run(st *State) {
 			n.tag = fv.curTag
 		}
 		in.execNode(n, st)
-		if fv.unsupported && in.top {
+		if len(fv.lines) > maxVCLines && !fv.unsupported {
+			fv.outOfSubset(fmt.Sprintf("verification condition exceeds %d lines (function too large to inline; needs callee contracts)", maxVCLines))
+		}
+		if fv.unsupported {
 			return
 		}
 	}
@@ -559,6 +565,20 @@ func (in *inst) execInstr(n *vnode, st *State, ins ssa.Instruction) {
 		v := in.lookup(n, x.Val)
 		in.safety(n, st, "nil", not(eq(addr.T, "LNil")), x.Pos())
 		fv.store(st, addr.T, x.Val.Type(), v)
+		if fa, ok := x.Addr.(*ssa.FieldAddr); ok {
+			if fi, _ := fv.eng.fieldInvOf(fa); fi != nil && funcPkg(in.fn).Path() == fi.PkgPath {
+				ce := in.baseEnv(st)
+				ce.vars = map[string]Val{"v": v}
+				ce.pkg = fv.eng.tpkgs[fi.PkgPath]
+				ce.where = "fieldinv " + fi.Type + "." + fi.Field
+				t := ce.evalGoal(fi.Clause.Expr)
+				if ce.err != nil {
+					fv.specErr(ce.err)
+				}
+				id := fmt.Sprintf("%s#site:%s.%s:%s@%s", funcKey(fv.top), fi.Type, fi.Field, fi.Clause.Name, in.siteKey(x.Pos(), n))
+				fv.oblige(id, "site", fi.Clause.Props, st.reach, t, fi.Clause.Expr, x.Pos())
+			}
+		}
 	case *ssa.Convert:
 		in.setVal(n, x, in.convert(n, st, in.lookup(n, x.X), x.X.Type(), x.Type()))
 	case *ssa.ChangeType:
@@ -718,7 +738,11 @@ func (in *inst) unop(n *vnode, st *State, x *ssa.UnOp) {
 		}
 		a := in.lookup(n, x.X)
 		in.safety(n, st, "nil", not(eq(a.T, "LNil")), x.Pos())
-		in.setVal(n, x, fv.load(st, a.T, x.Type()))
+		lv := fv.load(st, a.T, x.Type())
+		if fa, ok := x.X.(*ssa.FieldAddr); ok {
+			fv.assumeFieldInv(st, fa, lv)
+		}
+		in.setVal(n, x, lv)
 	case token.NOT:
 		a := in.lookup(n, x.X)
 		in.setVal(n, x, Val{K: KBool, T: not(a.T), Typ: x.Type()})
@@ -1229,4 +1253,33 @@ func elemLeafOf(l, arr string, path []int) string {
 	}
 	conds = append(conds, "(isLElem "+cur+")", eq("(epar "+cur+")", arr))
 	return and(conds...)
+}
+
+// siteKey: a per-function ordinal of the store site (stable under edits elsewhere in the file).
+func (in *inst) siteKey(pos token.Pos, n *vnode) string {
+	fv := in.fv
+	fv.siteN++
+	k := fmt.Sprintf("%d", fv.siteN)
+	if in.fn != fv.top {
+		k = in.fn.Name() + "." + k
+	}
+	if n.ctx != "" {
+		k += "[" + n.ctx + "]"
+	}
+	return k
+}
+
+// assumeFieldInv: a value loaded from a field under invariant satisfies it.
+func (fv *FnVC) assumeFieldInv(st *State, fa *ssa.FieldAddr, v Val) {
+	fi, _ := fv.eng.fieldInvOf(fa)
+	if fi == nil || fv.boundDepth > 0 {
+		return
+	}
+	ce := &cenv{fv: fv, vars: map[string]Val{"v": v}, st: st, pkg: fv.eng.tpkgs[fi.PkgPath], allocOld: fv.allocEntry, where: "fieldinv " + fi.Type + "." + fi.Field}
+	t := ce.evalAssume(st.reach, fi.Clause.Expr)
+	if ce.err != nil {
+		fv.specErr(ce.err)
+		return
+	}
+	fv.assume(st.reach, t)
 }
